@@ -4,6 +4,8 @@ import (
 	"crypto/sha256"
 	"encoding/json"
 	"fmt"
+	"go/ast"
+	"go/parser"
 	"go/scanner"
 	"go/token"
 	"os"
@@ -12,23 +14,45 @@ import (
 	"strings"
 )
 
-// Anchor drift.  anchors.lock.json (written by `vcheck --bless` on a tree on which
-// every check passed) holds, per property, a hash of the token stream (comments and
-// layout ignored) of each source file the property is anchored in
-// (properties.jsonl: anchors.files).  A different hash NEVER raises an alarm by
-// itself: it only tells the check that the code it was validated against has
-// changed, and the check then spends a larger budget on the tie and on the search
-// (thorough-tier generators, more cases, Extras scaled through ctx.Escalate), so that a
-// change which manifests only on large sizes or long histories is still found within a
-// quick run.  On the unchanged tree nothing drifts and the quick budget applies.
+// Source drift of the modelled functions.
+//
+// The Lean models are written by hand; what ties them to the code is (a) the
+// correspondence run on every check and (b) this record of WHICH source text the models
+// were validated against.  anchors.lock.json (written by `./check --bless` on a tree on
+// which every check passed) holds, per property, a hash of the token stream (comments
+// and layout ignored) of every function the property's model mirrors:
+//
+//   roots   = the functions and methods declared in the property's anchored files
+//             (properties.jsonl: anchors.files) that the property's harness package
+//             refers to by name (functions, or methods of the types it names);
+//   set     = roots closed under "calls / refers to a function or method of
+//             github.com/welllog/golib by name" (over-approximated by name).
+//
+// When a function of the set changes, appears or disappears, the tie "model = code" is
+// no longer the one that was validated.  That is NOT treated as a failing input: the
+// check first looks much harder (thorough-tier generators, thorough budget within a time
+// cap, Extras scaled through ctx.Escalate) for a concrete input on which the property
+// fails, and reports that as the violation.  When it finds none it still ends with
+// `VIOLATION … no-failing-input-found`, naming the drifted functions, because the
+// theorems are then about a model that is no longer shown to be the code
+// (VERIF_DRIFT_POLICY=escalate turns that last step off).
 
-func tokenHash(path string) (string, error) {
-	src, err := os.ReadFile(path)
-	if err != nil {
-		return "", err
-	}
+const modPath = "github.com/welllog/golib"
+
+type funcInfo struct {
+	key   string // "pkgdir:Recv.Name" or "pkgdir:Name"
+	pkg   string // directory relative to the repo root
+	file  string
+	name  string
+	recv  string
+	hash  string
+	calls map[string]bool // names referred to inside the body (plain and selector idents)
+	xpkg  map[string]bool // "pkgdir:Name" for selectors on golib imports
+}
+
+func tokenHashSrc(src []byte) string {
 	fset := token.NewFileSet()
-	f := fset.AddFile(path, fset.Base(), len(src))
+	f := fset.AddFile("x.go", fset.Base(), len(src))
 	var s scanner.Scanner
 	s.Init(f, src, nil, 0) // comments skipped
 	h := sha256.New()
@@ -38,11 +62,254 @@ func tokenHash(path string) (string, error) {
 			break
 		}
 		if tok == token.SEMICOLON && lit == "\n" {
-			continue // automatically inserted
+			continue
 		}
 		fmt.Fprintf(h, "%d:%s\x00", tok, lit)
 	}
-	return fmt.Sprintf("%x", h.Sum(nil)[:12]), nil
+	return fmt.Sprintf("%x", h.Sum(nil)[:10])
+}
+
+func recvBase(e ast.Expr) string {
+	for {
+		switch t := e.(type) {
+		case *ast.StarExpr:
+			e = t.X
+		case *ast.IndexExpr:
+			e = t.X
+		case *ast.IndexListExpr:
+			e = t.X
+		case *ast.ParenExpr:
+			e = t.X
+		case *ast.Ident:
+			return t.Name
+		default:
+			return ""
+		}
+	}
+}
+
+// parsePkg collects every function of one package directory of the repo.
+func parsePkg(repo, dir string) map[string]*funcInfo {
+	out := map[string]*funcInfo{}
+	ents, err := os.ReadDir(filepath.Join(repo, dir))
+	if err != nil {
+		return out
+	}
+	for _, e := range ents {
+		n := e.Name()
+		if e.IsDir() || !strings.HasSuffix(n, ".go") || strings.HasSuffix(n, "_test.go") {
+			continue
+		}
+		path := filepath.Join(repo, dir, n)
+		src, err := os.ReadFile(path)
+		if err != nil {
+			continue
+		}
+		fset := token.NewFileSet()
+		f, err := parser.ParseFile(fset, path, src, parser.SkipObjectResolution)
+		if err != nil {
+			// a file that does not parse is a drift of everything in it
+			out[dir+":<unparsable "+n+">"] = &funcInfo{key: dir + ":<unparsable " + n + ">", pkg: dir, file: filepath.Join(dir, n), name: "<unparsable>", hash: tokenHashSrc(src)}
+			continue
+		}
+		imports := map[string]string{} // local name -> pkg dir
+		for _, im := range f.Imports {
+			p := strings.Trim(im.Path.Value, `"`)
+			if !strings.HasPrefix(p, modPath+"/") {
+				continue
+			}
+			d := strings.TrimPrefix(p, modPath+"/")
+			local := filepath.Base(d)
+			if im.Name != nil {
+				local = im.Name.Name
+			}
+			imports[local] = d
+		}
+		for _, d := range f.Decls {
+			fd, ok := d.(*ast.FuncDecl)
+			if !ok {
+				continue
+			}
+			fi := &funcInfo{pkg: dir, file: filepath.Join(dir, n), name: fd.Name.Name, calls: map[string]bool{}, xpkg: map[string]bool{}}
+			if fd.Recv != nil && len(fd.Recv.List) > 0 {
+				fi.recv = recvBase(fd.Recv.List[0].Type)
+				fi.key = dir + ":" + fi.recv + "." + fi.name
+			} else {
+				fi.key = dir + ":" + fi.name
+			}
+			start := fset.Position(fd.Pos()).Offset
+			end := fset.Position(fd.End()).Offset
+			fi.hash = tokenHashSrc(src[start:end])
+			ast.Inspect(fd, func(nd ast.Node) bool {
+				switch x := nd.(type) {
+				case *ast.SelectorExpr:
+					if id, ok := x.X.(*ast.Ident); ok {
+						if pd, ok := imports[id.Name]; ok {
+							fi.xpkg[pd+":"+x.Sel.Name] = true
+							return true
+						}
+					}
+					fi.calls[x.Sel.Name] = true
+				case *ast.Ident:
+					fi.calls[x.Name] = true
+				}
+				return true
+			})
+			out[fi.key] = fi
+		}
+		// package-level var/const/type declarations matter too (tables, thresholds):
+		// one pseudo-function per file holding everything that is not a function
+		var rest []byte
+		last := 0
+		for _, d := range f.Decls {
+			if fd, ok := d.(*ast.FuncDecl); ok {
+				s := fset.Position(fd.Pos()).Offset
+				if fd.Doc != nil {
+					s = fset.Position(fd.Doc.Pos()).Offset
+				}
+				rest = append(rest, src[last:s]...)
+				last = fset.Position(fd.End()).Offset
+			}
+		}
+		rest = append(rest, src[last:]...)
+		k := dir + ":<decls " + n + ">"
+		out[k] = &funcInfo{key: k, pkg: dir, file: filepath.Join(dir, n), name: "<decls>", hash: tokenHashSrc(rest)}
+	}
+	return out
+}
+
+// harnessNames: every identifier and selector name used by the property's harness
+// package (the functions, methods and types of the library it drives).
+func harnessNames(verif, id string) map[string]bool {
+	names := map[string]bool{}
+	dir := filepath.Join(verif, "go", "props", strings.ToLower(id))
+	ents, _ := os.ReadDir(dir)
+	for _, e := range ents {
+		if e.IsDir() {
+			// e.g. c12/racer: a generated main package driving the same API
+			sub, _ := os.ReadDir(filepath.Join(dir, e.Name()))
+			for _, s := range sub {
+				if strings.HasSuffix(s.Name(), ".go") {
+					collectNames(filepath.Join(dir, e.Name(), s.Name()), names)
+				}
+			}
+			continue
+		}
+		if strings.HasSuffix(e.Name(), ".go") {
+			collectNames(filepath.Join(dir, e.Name()), names)
+		}
+	}
+	return names
+}
+
+func collectNames(path string, names map[string]bool) {
+	src, err := os.ReadFile(path)
+	if err != nil {
+		return
+	}
+	fset := token.NewFileSet()
+	f, err := parser.ParseFile(fset, path, src, parser.SkipObjectResolution)
+	if err != nil {
+		return
+	}
+	ast.Inspect(f, func(nd ast.Node) bool {
+		switch x := nd.(type) {
+		case *ast.SelectorExpr:
+			names[x.Sel.Name] = true
+		case *ast.Ident:
+			names[x.Name] = true
+		case *ast.BasicLit:
+			// method names used through reflection / protocol tables ("Push", "RangeWithStart")
+			if x.Kind == token.STRING {
+				s := strings.Trim(x.Value, "`\"")
+				if len(s) > 0 && len(s) < 40 && !strings.ContainsAny(s, " \t\n%/\\") {
+					names[s] = true
+				}
+			}
+		}
+		return true
+	})
+}
+
+// modelledFuncs computes the function set of a property and its hashes.
+func modelledFuncs(verif, repo, id string) map[string]string {
+	files := anchorFiles(verif, id)
+	anchored := map[string]bool{}
+	pkgs := map[string]map[string]*funcInfo{}
+	load := func(dir string) map[string]*funcInfo {
+		if p, ok := pkgs[dir]; ok {
+			return p
+		}
+		p := parsePkg(repo, dir)
+		pkgs[dir] = p
+		return p
+	}
+	for _, f := range files {
+		anchored[f] = true
+		load(filepath.Dir(f))
+	}
+	names := harnessNames(verif, id)
+	set := map[string]*funcInfo{}
+	var work []*funcInfo
+	add := func(fi *funcInfo) {
+		if fi == nil || set[fi.key] != nil {
+			return
+		}
+		set[fi.key] = fi
+		work = append(work, fi)
+	}
+	// roots
+	for _, f := range files {
+		for _, fi := range load(filepath.Dir(f)) {
+			if fi.file != f {
+				continue
+			}
+			if fi.name == "<decls>" || fi.name == "<unparsable>" {
+				add(fi)
+				continue
+			}
+			if names[fi.name] || (fi.recv != "" && names[fi.recv]) || fi.name == "init" {
+				add(fi)
+			}
+		}
+	}
+	if len(set) == 0 { // nothing matched by name: fall back to everything in the anchored files
+		for _, f := range files {
+			for _, fi := range load(filepath.Dir(f)) {
+				if fi.file == f {
+					add(fi)
+				}
+			}
+		}
+	}
+	// closure by name, within the package and across golib packages
+	for len(work) > 0 {
+		fi := work[len(work)-1]
+		work = work[:len(work)-1]
+		p := load(fi.pkg)
+		for _, g := range p {
+			if g.name == "<decls>" || g.name == "<unparsable>" {
+				continue
+			}
+			if fi.calls[g.name] {
+				add(g)
+			}
+		}
+		for k := range fi.xpkg {
+			parts := strings.SplitN(k, ":", 2)
+			q := load(parts[0])
+			for _, g := range q {
+				if g.name == parts[1] || (g.recv != "" && g.recv == parts[1]) {
+					add(g)
+				}
+			}
+		}
+	}
+	out := map[string]string{}
+	for k, fi := range set {
+		out[k] = fi.hash
+	}
+	return out
 }
 
 func anchorFiles(verif, id string) []string {
@@ -69,47 +336,51 @@ func anchorFiles(verif, id string) []string {
 
 func lockPath(verif string) string { return filepath.Join(verif, "anchors.lock.json") }
 
-func currentHashes(repo string, files []string) map[string]string {
-	m := map[string]string{}
-	for _, f := range files {
-		h, err := tokenHash(filepath.Join(repo, f))
-		if err != nil {
-			h = "missing"
-		}
-		m[f] = h
-	}
-	return m
-}
-
-// Bless records the anchor hashes of every registered property for the given tree.
+// Bless records the hash of EVERY function (and per-file declaration block) of the
+// library tree.  The per-property function sets are computed at check time from the
+// current harness and the current source, so changing a harness never needs a re-bless;
+// only a commit to the library does.
 func Bless(verif, repo string) error {
-	all := map[string]map[string]string{}
-	for _, id := range IDs() {
-		all[id] = currentHashes(repo, anchorFiles(verif, id))
-	}
-	b, _ := json.MarshalIndent(all, "", " ")
+	all := map[string]string{}
+	_ = filepath.Walk(repo, func(p string, info os.FileInfo, err error) error {
+		if err != nil {
+			return nil
+		}
+		if info.IsDir() {
+			if strings.HasPrefix(info.Name(), ".") && p != repo {
+				return filepath.SkipDir
+			}
+			rel, _ := filepath.Rel(repo, p)
+			for k, fi := range parsePkg(repo, rel) {
+				all[k] = fi.hash
+			}
+		}
+		return nil
+	})
+	b, _ := json.MarshalIndent(map[string]any{"note": "token-stream hashes of every function of the library tree the checks were validated on (./check --bless); see go/internal/core/drift.go", "funcs": all}, "", " ")
 	return os.WriteFile(lockPath(verif), append(b, '\n'), 0o644)
 }
 
-// Drift lists the anchored files of property id whose token stream differs from the
-// blessed one (nil when there is no lock file or nothing changed).
+// Drift lists the modelled functions of property id whose token stream differs from the
+// blessed one or which are new (nil when nothing changed or there is no lock file).
 func Drift(verif, repo, id string) []string {
 	b, err := os.ReadFile(lockPath(verif))
 	if err != nil {
 		return nil
 	}
-	var all map[string]map[string]string
-	if json.Unmarshal(b, &all) != nil {
+	var lock struct {
+		Funcs map[string]string `json:"funcs"`
+	}
+	if json.Unmarshal(b, &lock) != nil || lock.Funcs == nil {
 		return nil
 	}
-	want := all[id]
-	if want == nil {
-		return nil
-	}
+	have := modelledFuncs(verif, repo, id)
 	var changed []string
-	for f, h := range currentHashes(repo, anchorFiles(verif, id)) {
-		if want[f] != h {
-			changed = append(changed, f)
+	for k, h := range have {
+		if w, ok := lock.Funcs[k]; !ok {
+			changed = append(changed, k+" (new)")
+		} else if w != h {
+			changed = append(changed, k)
 		}
 	}
 	sort.Strings(changed)
